@@ -1,7 +1,7 @@
 (* C13 — Pareto frontier and epsilon-constraint thresholds are exact.
    Only statements, each closed by `exact`, with Print Assumptions beneath. Models: LV.Model.Pareto; LV.Model.Filters for the
    two wrappers that consume the labelling (filter_multimetric_points_sampled, filter_multimetric_points_sampled_spe). *)
-From Coq Require Import List QArith Bool Arith.
+From Coq Require Import List QArith Bool Arith Permutation Sorted.
 From LV Require Import Model.Pareto Proofs.Pareto Model.Phases Model.Filters Proofs.Filters.
 Import ListNotations.
 Open Scope Q_scope.
@@ -19,6 +19,21 @@ Theorem C13_pareto_partition_exact {A} (vals : list (list Q)) (width : nat) (obs
         ~ exists k, (k < length vals)%nat /\ Dominates (nth k vals []) (nth j vals [])).
 Proof. exact (@pareto_partition_exact A vals width obs dflt). Qed.
 Print Assumptions C13_pareto_partition_exact.
+
+(* The frontier sorted along the first metric, as the threshold-clipped epsilon routine consumes it
+   (_find_sorted_pareto_frontier_values_minimization): a rearrangement of exactly the rows that no row dominates under
+   minimisation - every copy of a tied row kept - in non-decreasing order of the first metric. *)
+Theorem C13_sorted_frontier_exact (vals : list (list Q)) (width : nat) :
+  (forall r, In r vals -> length r = width) ->
+  let nv := neg_rows vals in
+  Permutation (sorted_pareto_min vals)
+              (map (fun j => nth j vals []) (filter (nondominated_b nv) (seq 0 (length vals)))) /\
+  StronglySorted (fun a b => nth 0 a 0 <= nth 0 b 0) (sorted_pareto_min vals) /\
+  forall j, (j < length vals)%nat ->
+    (nondominated_b nv j = true <->
+     ~ exists k, (k < length vals)%nat /\ Dominates (nth k nv []) (nth j nv [])).
+Proof. exact (sorted_frontier_exact vals width). Qed.
+Print Assumptions C13_sorted_frontier_exact.
 
 (* Without thresholds: convex combination of the constrained metric's values at the two single-metric optima
    (first minimum of each column). *)
@@ -110,7 +125,8 @@ Example C13_example :
   pareto_split [[1;2]; [2;1]; [1;1]; [1;2]] [10;11;12;13]%nat = ([10;11;13]%nat, [12]%nat) /\
   find_eps (1#4) 1 [[1;5]; [3;2]; [2;4]] None None == (1 - (1#4)) * 2 + (1#4) * 5 /\
   force_min 0 [[3;0]; [1;0]; [2;0]; [5;0]; [4;0]; [0;0]; [9;0]] [true; true; true; false; true; true; true]
-    = [false; false; false; false; true; false; true].
+    = [false; false; false; false; true; false; true] /\
+  sorted_pareto_min [[1;9]; [1;2]; [5;5]; [1;2]; [7;1]; [7;1]; [8;8]] = [[1;2]; [1;2]; [7;1]; [7;1]].
 Proof. vm_compute. repeat split; reflexivity. Qed.
 
 (* non-vacuity of the wrapper theorems: three good observations and four reported failures (carrying the value 9); the
